@@ -239,8 +239,20 @@ impl Clone for WriteZone {
 
 impl Drop for WriteZone {
     fn drop(&mut self) {
+        #[cfg(domain_verif)]
+        let verif_dirty = self.dirty.load(Ordering::SeqCst);
         if self.dirty.swap(false, Ordering::SeqCst) {
             self.apex.rollback(self.new_version);
+        }
+        // Hook: the update lock (if this is the lock holder and not a clone
+        // inside a WriteNode) is released only after this body has run.
+        #[cfg(domain_verif)]
+        if self._lock.is_some() {
+            crate::verif_trace::emit(
+                "DropWriter",
+                self.new_version.verif_int(),
+                u64::from(verif_dirty),
+            );
         }
     }
 }
@@ -819,6 +831,13 @@ impl ZoneVersions {
             "Changing current zone version from {:?} to {version:?}",
             self.current
         );
+        // Hook: `&mut self` is only reachable through `versions.write()`.
+        #[cfg(domain_verif)]
+        crate::verif_trace::emit(
+            "CommitUpdateCurrent",
+            version.verif_int(),
+            0,
+        );
         self.current = (version, marker.clone());
         marker
     }
@@ -829,6 +848,8 @@ impl ZoneVersions {
         marker: Arc<VersionMarker>,
     ) {
         trace!("Pushing new zone version {version:?}");
+        #[cfg(domain_verif)]
+        crate::verif_trace::emit("CommitPushVersion", version.verif_int(), 0);
         self.all.push((version, Arc::downgrade(&marker)))
     }
 
